@@ -865,6 +865,107 @@ theorem C14_tickdb_phases (d : DNode) (pre : Bool) (dl : Option FsH) (hon : d.n.
   refine ⟨?_, StructOk.dbRestore pre dl (StructOk.refl _ _)⟩
   simp only [DNode.apply, DNode.tickDb, hon, if_true, hfix]
 
+/-! ## 3c. the one-step statements BY NAME (what the agent sees), for base operations -/
+
+theorem nodup_map_unique {α : Type} (nm : α → String) : ∀ (l : List α), (l.map nm).Nodup →
+    ∀ {a b : α}, a ∈ l → b ∈ l → nm a = nm b → a = b := by
+  intro l
+  induction l with
+  | nil => intro _ a b ha; cases ha
+  | cons x xs ih =>
+    intro hnd a b ha hb hn
+    simp only [List.map_cons, List.nodup_cons, List.mem_map, not_exists, not_and] at hnd
+    simp only [List.mem_cons] at ha hb
+    rcases ha with rfl | ha <;> rcases hb with rfl | hb
+    · rfl
+    · exact absurd hn.symm (hnd.1 b hb)
+    · exact absurd hn (hnd.1 a ha)
+    · exact ih hnd.2 ha hb hn
+
+/-- **C14 by name (software).** What the agent sees for the software item called `name` differs after a base operation only if a
+scan covering that item completes in the step, and is then the item's actual health at that moment. (No uniqueness assumption:
+`describe_state()`'s dictionary and the model both resolve a name to the same item before and after.) -/
+theorem C14_view_sw (n : Node) (b : Op) (name : String) (v v' : SwH)
+    (h : n.seenSw name = some v) (h' : (n.apply b).seenSw name = some v') (hne : v' ≠ v) :
+    ∃ x, n.sws.find? (fun x => x.name = name) = some x ∧ swScanCompletes n b (swMoment n b x) = true ∧
+      v' = (swMoment n b x).actual := by
+  unfold Node.seenSw at h h'
+  rw [apply_sws, find?_map_pres _ (swEff n b) _ (by intro a; rw [(swEff_name n b a).1])] at h'
+  cases hfind : n.sws.find? (fun x => decide (x.name = name)) with
+  | none => rw [hfind] at h; cases h
+  | some x =>
+    rw [hfind] at h h'
+    simp only [Option.map_some, Option.some.injEq] at h h'
+    refine ⟨x, rfl, ?_⟩
+    have hv := swEff_visible n b x
+    cases hc : swScanCompletes n b (swMoment n b x)
+    · rw [hc] at hv
+      simp only [Bool.false_eq_true, if_false] at hv
+      exact absurd (by rw [← h', hv, h]) hne
+    · rw [hc] at hv
+      simp only [if_true] at hv
+      exact ⟨rfl, by rw [← h', hv]⟩
+
+/-- **C14 by name (files).** On a node whose folder names and, per folder, file names are unique (`Node.wf`, the abstraction the
+rig checks on every trace): what the agent sees for `F/f` — both before and after the step a live file of a live folder —
+differs after a base operation only if a scan covering that file completes in the step (its own scan request; the whole-node
+scan's fan-out; the folder's timed scan), and is then the file's actual health. -/
+theorem C14_view_file (n : Node) (b : Op) (F f : String) (v v' : FsH) (hwf : n.wf = true)
+    (h : n.seenFile F f = some v) (h' : (n.apply b).seenFile F f = some v') (hne : v' ≠ v) :
+    ∃ G x, n.liveFolder? F = some G ∧ findLive f G.files = some x ∧ fileScanCompletes n b G x = true ∧ v' = x.actual := by
+  simp only [Node.wf, Bool.and_eq_true, decide_eq_true_eq, List.all_eq_true] at hwf
+  obtain ⟨⟨_, hfo⟩, hfi⟩ := hwf
+  unfold Node.seenFile Node.liveFile? at h h'
+  cases hG : n.liveFolder? F with
+  | none => rw [hG] at h; cases h
+  | some G =>
+    rw [hG] at h
+    simp only [] at h
+    cases hx : findLive f G.files with
+    | none => rw [hx] at h; cases h
+    | some x =>
+      rw [hx] at h
+      simp only [Option.map_some, Option.some.injEq] at h
+      have hGm : G ∈ n.folders := List.mem_of_find?_eq_some hG
+      have hGp := List.find?_some hG
+      have hxm : x ∈ G.files := List.mem_of_find?_eq_some hx
+      have hxp := List.find?_some hx
+      simp only [Bool.and_eq_true, decide_eq_true_eq] at hGp hxp
+      refine ⟨G, x, rfl, hx, ?_⟩
+      cases hG2 : (n.apply b).liveFolder? F with
+      | none => rw [hG2] at h'; cases h'
+      | some G2 =>
+        rw [hG2] at h'
+        simp only [] at h'
+        cases hx2 : findLive f G2.files with
+        | none => rw [hx2] at h'; cases h'
+        | some x2 =>
+          rw [hx2] at h'
+          simp only [Option.map_some, Option.some.injEq] at h'
+          have hG2m : G2 ∈ (n.apply b).folders := List.mem_of_find?_eq_some hG2
+          have hG2p := List.find?_some hG2
+          have hx2m : x2 ∈ G2.files := List.mem_of_find?_eq_some hx2
+          have hx2p := List.find?_some hx2
+          simp only [Bool.and_eq_true, decide_eq_true_eq] at hG2p hx2p
+          rw [apply_folders, List.mem_map] at hG2m
+          obtain ⟨G0, hG0m, rfl⟩ := hG2m
+          have hG0 : G0 = G := nodup_map_unique (·.name) n.folders hfo hG0m hGm
+            (by rw [← folderEff_name n b G0, hG2p.1, hGp.1])
+          subst hG0
+          rw [folderEff_files, List.mem_map] at hx2m
+          obtain ⟨x0, hx0m, rfl⟩ := hx2m
+          have hx0 : x0 = x := nodup_map_unique (·.name) G0.files (hfi G0 hGm) hx0m hxm
+            (by rw [← fileEff_name n b G0 x0, hx2p.1, hxp.1])
+          subst hx0
+          have hv := fileEff_visible n b G0 x0
+          cases hc : fileScanCompletes n b G0 x0
+          · rw [hc] at hv
+            simp only [Bool.false_eq_true, if_false] at hv
+            exact absurd (by rw [← h', hv, h]) hne
+          · rw [hc] at hv
+            simp only [if_true] at hv
+            exact ⟨rfl, by rw [← h', hv]⟩
+
 /-! ## 4. what each request answers -/
 
 /-- **C14 responses (software requests).** `success` iff the node is ON, an item of that name and kind is installed, the
@@ -989,5 +1090,52 @@ example :
       [("d", [("a", .corrupt, .corrupt, true), ("b", .good, .none, true), ("a", .good, .none, false)]),
        ("dl", [("a", .good, .none, false)])] := by
   decide
+
+/-- a database server: the service is FIXING with 1 left, its file is CORRUPT and was scanned (shows CORRUPT); node scan due -/
+def exDb : DNode :=
+  { n := { exNode with
+      scanCd := 1,
+      sws := [{ name := "database-service", isApp := false, op := .running, actual := .fixing, visible := .good, fixDur := 1,
+                fixCd := some 1, auxDur := 5, auxCd := none }],
+      folders := [{ name := "database", deleted := false, actual := .good, visible := .none, scanDur := 3, scanCd := 0,
+                    restoreDur := 3, restoreCd := 0,
+                    files := [{ name := "database.db", actual := .corrupt, visible := .compromised, deleted := false }] }] },
+    defScan := none, defRestore := none }
+
+/-- hypotheses of `C14_view_db_restore` / `C14_view_file` are satisfiable; the restore (Python API) leaves what is seen for
+`database/database.db` alone although the file behind the name is new and GOOD -/
+example :
+    exDb.n.wf = true ∧ exDb.n.seenFile "database" "database.db" = some .compromised ∧
+    (exDb.apply (.dbRestore false (some .good))).n.seenFile "database" "database.db" = some .compromised := by decide
+example :
+    ((exDb.apply (.dbRestore false (some .good))).n.folders.map
+        (fun G => (G.name, G.files.map (fun f => (f.name, f.actual, f.visible, f.deleted))))) =
+      [("database", [("database.db", .corrupt, .compromised, true), ("database.db", .good, .compromised, false)]),
+       ("downloads", [("database.db", .good, .none, false)])] := by decide
+
+/-- inside a timestep (`tickDb`): the node scan first updates the old file (CORRUPT), the fix completes, the restore replaces the
+file and carries CORRUPT over; the service shows FIXING (scanned before its fix completed) and is GOOD; with nothing delivered the
+step is a plain `tick` -/
+example :
+    exDb.n.powerPhase.scanPhase.dbFixCompletes = true ∧
+    ((exDb.apply (.tickDb false (some .good))).n.sws.map (fun x => (x.actual, x.visible))) = [(.good, .fixing)] ∧
+    (exDb.apply (.tickDb false (some .good))).n.seenFile "database" "database.db" = some .corrupt := by decide
+example :
+    ((exDb.apply (.tickDb false (some .good))).n.folders.map
+        (fun G => (G.name, G.files.map (fun f => (f.name, f.actual, f.visible, f.deleted))))) =
+      [("database", [("database.db", .corrupt, .corrupt, true), ("database.db", .good, .corrupt, false)]),
+       ("downloads", [("database.db", .good, .none, false)])] := by decide
+example : (exDb.apply (.tickDb false none)).n = exDb.n.tick := by decide
+
+/-- the database folder was deleted: the restore creates a NEW live folder of that name; the copy shows what the deleted file
+showed -/
+example :
+    ((exDb.run [.base (.fsDeleteFolder "database"), .dbRestore false (some .good)]).n.folders.map
+        (fun G => (G.name, G.files.map (fun f => (f.name, f.actual, f.visible, f.deleted))))) =
+      [("database", [("database.db", .corrupt, .compromised, true)]),
+       ("downloads", [("database.db", .good, .none, false)]),
+       ("database", [("database.db", .good, .compromised, false)])] ∧
+    ((exDb.run [.base (.fsDeleteFolder "database"), .dbRestore false (some .good)]).n.folders.map (·.deleted)) =
+      [true, false, false] := by decide
 
 end Primaite.Health
